@@ -177,6 +177,9 @@ fn func_random(ctx: &EvalContext, args: &[Expr]) -> Result<i64, ExprError> {
     let max = args[0].eval(ctx)?;
     #[cfg(feature = "verif-hooks")]
     crate::verif_hooks::log(crate::verif_hooks::DrawEvent::Bound(max));
+    if max <= 1 {
+        return Err(ExprErrorKind::EmptyRandomRange(max).into());
+    }
     Ok(ctx.random(1..max))
 }
 
